@@ -643,7 +643,8 @@ Section Gen.
   Lemma wf_elem_inv var : wf_elem var = true ->
     kind_elem var /\ var_common var = true
     /\ ((exists k, v_types var = [TClass k] /\ v_clazz var = Some k /\ v_tokens_factory var = None)
-        \/ (exists t, v_types var = [t] /\ simple_type t = true /\ v_clazz var = None)).
+        \/ (exists t, v_types var = [t] /\ simple_type t = true /\ v_clazz var = None)
+        \/ (v_types var = [TQName] /\ v_clazz var = None /\ v_tokens_factory var = None)).
   Proof.
     unfold wf_elem. intros H. peel H H1. peel H Hwo. peel H Hq. peel H H0. split; [apply kind_elem_of; exact H|]. split; [exact H0|].
     unfold var_type in H1. destruct (v_types var) as [|t [|? ?]]; try discriminate.
@@ -656,10 +657,12 @@ Section Gen.
               exists t0, [t] = [t0] /\ simple_type t0 = true /\ v_clazz var = None).
     { intros Hs Hx. peel Hx Hx2. peel Hx Hx1. exists t. split; [reflexivity|]. split; [exact Hs|].
       destruct (v_clazz var); [discriminate|reflexivity]. }
-    destruct t as [| | | | | | | | | | | | |e|k]; try (right; apply Hsimple; [reflexivity|exact H1]); try discriminate H1.
-    left. exists k. peel H1 H3. peel H1 H2. split; [reflexivity|].
-    destruct (v_clazz var) as [k'|]; cbn in H1; [|discriminate]. apply N.eqb_eq in H1. subst k'.
-    destruct (v_tokens_factory var); [discriminate|]. split; reflexivity.
+    destruct t as [| | | | | | | | | | | | |e|k]; try (right; left; apply Hsimple; [reflexivity|exact H1]); try discriminate H1.
+    - right. right. peel H1 H3. peel H1 H2. split; [reflexivity|].
+      destruct (v_clazz var); [discriminate|]. destruct (v_tokens_factory var); [discriminate|]. split; reflexivity.
+    - left. exists k. peel H1 H3. peel H1 H2. split; [reflexivity|].
+      destruct (v_clazz var) as [k'|]; cbn in H1; [|discriminate]. apply N.eqb_eq in H1. subst k'.
+      destruct (v_tokens_factory var); [discriminate|]. split; reflexivity.
   Qed.
 
   Lemma wf_elem_qname var : wf_elem var = true -> v_qname var <> [].
@@ -723,6 +726,15 @@ Section Gen.
     intros Ht Hs H. unfold Fits.fits_item, vtype in H. rewrite Ht in H.
     destruct t; try discriminate Hs; destruct x; try discriminate H;
       apply andb_true_iff in H as [H _]; eexists; split; try reflexivity; exact H.
+  Qed.
+
+  Lemma fits_item_qname rec var x :
+    v_types var = [TQName] -> fits_item rec var x = true ->
+    exists q, x = VP (PQName q) /\ ok (PQName q) = true /\ qname_ok q = true.
+  Proof.
+    intros Ht H. unfold Fits.fits_item, vtype in H. rewrite Ht in H.
+    destruct x as [|p| | | | |]; try discriminate H. unfold qleaf_ok in H. apply andb_true_iff in H as [H1 H2].
+    destruct p; try discriminate H2. eexists. split; [reflexivity|]. split; assumption.
   Qed.
 
   Lemma fits_item_class rec var k x :
@@ -1233,7 +1245,7 @@ Section Gen.
           pose proof (Hfe _ var Hine (or_introl eq_refl)) as Hfv0.
           assert (Hkt : v_is KText var = false) by (destruct Hk as [_ [Hkt _]]; exact Hkt).
           unfold g_items. rewrite Hkt.
-          destruct Hty as [[k [Htys [Hcl Htf]]]|[t [Htys [Hst Hcl]]]].
+          destruct Hty as [[k [Htys [Hcl Htf]]]|Hty2].
           + (* class typed *)
             rewrite Htf.
             assert (Hobj : forall y, (odepth y <= odepth x)%nat -> fits_item (fits n) var y = true ->
@@ -1276,17 +1288,26 @@ Section Gen.
               destruct f as [|f0]; [cbn [odepth] in *; lia|].
               rewrite (run_value_single f0 var _ Hmx Hk Htf Efa). cbn [gbind flat_map]. rewrite app_nil_r.
               apply Hobj; [lia|exact Hfv|cbn [odepth] in *; lia].
-          + (* simple typed *)
+          + (* simple typed, or QName typed *)
+            assert (Htt : exists t, v_types var = [t] /\ v_clazz var = None)
+              by (destruct Hty2 as [[t [H1 [_ H2]]]|[H1 [H2 _]]]; eexists; split; eassumption).
+            destruct Htt as [t [Htys Hcl]].
+            assert (Hleaf : forall y, fits_item (fits n) var y = true ->
+                      exists p, y = VP p /\ encode_primitive c u (v_format var) (VP p) = Ok (enc_p (v_format var) p)).
+            { intros y Hfy. destruct Hty2 as [[t' [Htys' [Hst _]]]|[Htys' _]].
+              - destruct (fits_item_simple _ var t' y Htys' Hst Hfy) as [p [-> Hp]]. exists p.
+                split; [reflexivity|apply (encode_leaf t' _ p Hp)].
+              - destruct (fits_item_qname _ var y Htys' Hfy) as [q [-> _]]. exists (PQName q). split; reflexivity. }
             assert (Hprim : forall y f', fits_item (fits n) var y = true ->
                       run c u ign (S f') (CAnyType y var) = Ok (bflat (g_prim var y))).
-            { intros y f' Hfy. destruct (fits_item_simple _ var t y Htys Hst Hfy) as [p [-> Hp]].
-              rewrite (run_anytype_prim f' var (VP p) (enc_p (v_format var) p) Hk Hn Hany I (encode_leaf t _ p Hp)).
+            { intros y f' Hfy. destruct (Hleaf y Hfy) as [p [-> He]].
+              rewrite (run_anytype_prim f' var (VP p) (enc_p (v_format var) p) Hk Hn Hany I He).
               reflexivity. }
             destruct Hsrc as [Hw|[f0 [t0 [l0 [Hf0 [Htf0 [_ [El Hil]]]]]]]]; cbn [fst snd] in *.
             2:{ (* one item of a list field inside a sequence group *)
                 rewrite El in Hfv0. unfold Fits.fits_elem in Hfv0. rewrite Hf0, Htf0 in Hfv0.
                 apply andb_true_iff in Hfv0 as [_ Hfl]. rewrite forallb_forall in Hfl. specialize (Hfl x Hil).
-                destruct (fits_item_simple _ var t x Htys Hst Hfl) as [p [Ex Hp]].
+                destruct (Hleaf x Hfl) as [p [Ex _]].
                 rewrite Htf0.
                 destruct f as [|f0']; [cbn [odepth] in *; lia|].
                 rewrite (run_value_item f0' var x Hmx Hk Htf0); [|subst x; reflexivity].
@@ -1325,7 +1346,7 @@ Section Gen.
                  rewrite (concatM_flat _ (fun y => bflat (g_item (gobj n) var y))).
                  { rewrite flat_map_map. reflexivity. }
                  intros y Hy. rewrite forallb_forall in Hfl. specialize (Hfl y Hy).
-                 destruct (fits_item_simple _ var t y Htys Hst Hfl) as [p [Ey Hp]].
+                 destruct (Hleaf y Hfl) as [p [Ey _]].
                  destruct f0 as [|f1]; [cbn [odepth] in *; lia|].
                  rewrite (run_value_item f1 var y Hmx Hk Etf); [|subst y; reflexivity].
                  destruct f1 as [|f2]; [cbn [odepth] in *; lia|].
@@ -1334,7 +1355,7 @@ Section Gen.
                  rewrite (run_value_single f0 var x Hmx Hk Etf Efa). cbn [gbind].
                  assert (Hfx : fits_item (fits n) var x = true).
                  { destruct x; try exact Hfv. congruence. }
-                 destruct (fits_item_simple _ var t x Htys Hst Hfx) as [p [Ex Hp]].
+                 destruct (Hleaf x Hfx) as [p [Ex _]].
                  destruct f0 as [|f1]; [cbn [odepth] in *; lia|].
                  rewrite (Hprim x f1 Hfx). rewrite Ex. cbn [flat_map g_item]. rewrite app_nil_r. reflexivity.
         - (* the Text field *)
@@ -1366,10 +1387,17 @@ Section Gen.
     match x with VP p => leaf_text c u fmt p | _ => [] end.
   Definition e_atoms (fmt : option str) (x : value) : list atom :=
     match x with
+    | VP (PQName q) => [AQName (Bind.split_qname q)]
     | VP p => [AText (leaf_text c u fmt p)]
     | VList _ l => map (fun y => AText (x_text fmt y)) l
     | _ => []
     end.
+  (* a plain leaf is not a QName *)
+  Lemma leaf_nq t fmt q : leaf_ok t fmt (PQName q) = false.
+  Proof. unfold Fits.leaf_ok. cbn [ptext plain_text]. apply andb_false_r. Qed.
+  Lemma e_atoms_plain_leaf t fmt p : leaf_ok t fmt p = true -> e_atoms fmt (VP p) = [AText (leaf_text c u fmt p)].
+  Proof. intros H. destruct p; try reflexivity. rewrite leaf_nq in H. discriminate H. Qed.
+
   Definition e_data (fmt : option str) (x : value) : list XmlNs.enode :=
     match e_atoms fmt x with
     | [] => []
